@@ -9,11 +9,11 @@ bdemo() { g++ -std=c++11 -g -w -I$W -I$W/private -I$W/booster -I$W/_build -I$W/_
 ninja -C _build -j8 >/dev/null 2>&1 || { echo "BUILD-FAILED with change"; exit 2; }
 echo "--- existing tests with the change ($RX)"
 (cd _build && ctest -R "$RX" --timeout 300 2>&1 | tail -4)
-bdemo; timeout 300 seed_out/demo.bin >/tmp/seed_demo_with.txt 2>&1; RC1=$?
-echo "--- demo WITH change: exit $RC1"; tail -2 /tmp/seed_demo_with.txt
+bdemo; timeout 300 seed_out/demo.bin >$W/seed_out/with.txt 2>&1; RC1=$?
+echo "--- demo WITH change: exit $RC1"; tail -2 $W/seed_out/with.txt
 git checkout -q -- .
 ninja -C _build -j8 >/dev/null 2>&1 || { echo "BUILD-FAILED without change"; exit 2; }
-bdemo; timeout 300 seed_out/demo.bin >/tmp/seed_demo_without.txt 2>&1; RC2=$?
-echo "--- demo WITHOUT change: exit $RC2"; tail -2 /tmp/seed_demo_without.txt
+bdemo; timeout 300 seed_out/demo.bin >$W/seed_out/without.txt 2>&1; RC2=$?
+echo "--- demo WITHOUT change: exit $RC2"; tail -2 $W/seed_out/without.txt
 git apply seed_out/patch.diff
 if [ $RC1 -ne 0 ] && [ $RC2 -eq 0 ]; then echo "CONFIRMED"; else echo "NOT-CONFIRMED"; fi
